@@ -35,7 +35,7 @@ with fields := FNil | FCons (p : fparams) (t : ty) (r : fields).
 Record timev := { yr : Z; mo : N; dy : N; hh : N; mi : N; ss : N; ns : N; off : Z }.
 
 Inductive value :=
-| VNull                                       (* nil *big.Int / nil slice *)
+| VNull                                       (* nil *big.Int / nil slice / nil ObjectIdentifier / BitString{nil,0} / RawValue{} *)
 | VBool (b : bool) | VInt (z : Z) | VStr (s : bytes) | VOid (arcs : list N)
 | VBits (bs : bytes) (bitlen : Z) | VTime (t : timev) | VBytes (b : bytes)
 | VRaw (cls tag : N) (comp : bool) (body full : bytes) | VFlag (b : bool)
@@ -496,12 +496,9 @@ Fixpoint zero (t : ty) : value :=
   match t with
   | TBool => VBool false
   | TInt _ | TEnum => VInt 0
-  | TBig | TBytes | TSlice _ _ => VNull
+  | TBig | TBytes | TSlice _ _ | TOid | TBits | TRaw => VNull
   | TStr => VStr []
-  | TOid => VOid []
-  | TBits => VBits [] 0
   | TTime => VTime zero_time
-  | TRaw => VRaw 0 0 false [] []
   | TFlag => VFlag false
   | TStruct _ fs => VStruct None (zeros fs)
   end
@@ -535,6 +532,7 @@ Inductive pre :=
 | PFail
 | PDone (v : value) (rest : bytes)
 | PBody (utag : N) (h : hdr) (inner rest full : bytes).
+(* full: RawValue.FullBytes = bytes[initOffset:offset]; RawContent = bytes[elemOffset:offset] *)
 
 Definition opt_tag_eqb (h : N) (p : option N) : bool :=
   match p with Some x => h =? x | None => false end.
@@ -548,29 +546,31 @@ Definition pre_field (perm : bool) (p : fparams) (t : ty) (bs : bytes) : pre :=
   match parse_tl perm bs with
   | None => PFail
   | Some (h1, r1) =>
-  let unwrap : option (hdr * bytes) + pre :=
+  (* the header to match, the bytes after it, and the suffix at which the element decoded into the target starts
+     (after the header of an EXPLICIT tag, if one was unwrapped) *)
+  let unwrap : option (hdr * bytes * bytes) + pre :=
     if explicit p then
-      let expected_class := if application p then 1 else 2 in
-      match r1 with
-      | [] => inr PFail                                     (* explicit tag has no child *)
-      | _ =>
-        if (t_class h1 =? expected_class) && opt_tag_eqb (t_tag h1) (ptag p)
-           && ((t_len h1 =? 0) || t_comp h1)
-        then
-          if is_raw t then inl (Some (h1, r1))
-          else if 0 <? t_len h1 then inl (parse_tl perm r1)
-          else if is_flag t then inr (PDone (VFlag true) r1)
-          else inr PFail                                    (* zero length explicit tag was not a Flag *)
-        else match default_value p t with
-             | Some v => inr (PDone v bs)
-             | None => inr PFail
-             end
-      end
-    else inl (Some (h1, r1)) in
+      let expected_class := if application p then 1 else if private p then 3 else 2 in
+      if (t_class h1 =? expected_class) && opt_tag_eqb (t_tag h1) (ptag p)
+         && ((t_len h1 =? 0) || t_comp h1)
+      then
+        if is_raw t then inl (Some (h1, r1, bs))
+        else if 0 <? t_len h1 then
+          match r1 with
+          | [] => inr PFail                                 (* explicit tag has no child *)
+          | _ => inl (match parse_tl perm r1 with Some (h2, r2) => Some (h2, r2, r1) | None => None end)
+          end
+        else if is_flag t then inr (PDone (VFlag true) r1)
+        else inr PFail                                      (* zero length explicit tag was not a Flag *)
+      else match default_value p t with
+           | Some v => inr (PDone v bs)
+           | None => inr PFail
+           end
+    else inl (Some (h1, r1, bs)) in
   match unwrap with
   | inr x => x
   | inl None => PFail
-  | inl (Some (h, r)) =>
+  | inl (Some (h, r, start)) =>
       let '(match_any, utag0, compound_type) := universal_type t in
       let utag1 :=
         if utag0 =? TagPrintableString then
@@ -597,7 +597,8 @@ Definition pre_field (perm : bool) (p : fparams) (t : ty) (bs : bytes) : pre :=
            end
       else if blen r <? t_len h then PFail                  (* data truncated *)
       else let rest := drop (t_len h) r in
-           PBody utag h (take (t_len h) r) rest (consumed bs rest)
+           PBody utag h (take (t_len h) r) rest
+                 (consumed start rest)
   end end end.
 
 (* the non-recursive arms of the type switch *)
